@@ -12,7 +12,7 @@ functions, every decode-reachable loop advances an iterator / the decoder's inpu
 a decoded number.
 """
 import json, os, re
-from engine.rules import (MustPass, is_derived, root_fn, calls_to, outcome)
+from engine.rules import (MustPass, is_derived, root_fn, calls_to, outcome, success_values)
 from engine.sym import strip_deep, render, walk, short, strip
 from engine.callgraph import CallGraph
 from engine import absint
@@ -239,7 +239,8 @@ def peel(t):
         if t[0] == "field" and t[2] == "0" and t[1][0] == "variant" and t[1][2] in ("Some", "Continue", "Ok"):
             t = t[1][1]
             continue
-        if t[0] == "call" and (t[3] or {}).get("name") in ("branch", "ok_or", "ok_or_else") and t[2]:
+        if t[0] == "call" and (t[3] or {}).get("name") in ("branch", "ok_or", "ok_or_else") and t[2] and \
+                (t[3] or {}).get("krate") in ("core", "std"):
             t = t[2][0]
             continue
         return t
@@ -350,6 +351,7 @@ LEN_NAMES = ("len", "find", "rfind", "position", "rposition", "valid_up_to", "re
 
 
 _VAR_BODY = [None]      # body whose multi-definition locals may be resolved (set around a rule evaluation)
+_LEN_FACTS = [None]     # facts (to read closure bodies) while a length rule is evaluated
 
 
 def var_const_values(t):
@@ -408,6 +410,71 @@ def len_leaves(t, acc):
     if k in ("un", "bin", "call") and _is_boolish(t):
         acc[1] += 1                       # a condition converted to an integer (`usize::from(cond)`, `cond as usize`)
         return True
+    # a length carried through Option combinators: `x.filter(p)`, `x.unwrap_or(c)`, `x.map(|s| s.len())`,
+    # `x.map_or(c, |i| i + 1)` — still one in-memory length / index (plus constants)
+    if k == "call" and (t[3] or {}).get("krate") in ("core", "std") and \
+            re.match(r"^(std|core)::option::Option::<", (t[3] or {}).get("fn") or ""):
+        nm = (t[3] or {}).get("name")
+        a = t[2]
+        if nm in ("filter", "copied", "cloned", "or") and a:
+            return len_leaves(a[0], acc)
+        if nm == "unwrap_or" and len(a) == 2:
+            c = const_eval(a[1])
+            if c is not None and 0 <= c <= 16:
+                sub = [0, 0]
+                if len_leaves(a[0], sub):
+                    acc[0] += max(sub[0], 0)
+                    acc[1] += max(sub[1], c)
+                    return True
+            return False
+        if nm in ("map", "map_or") and len(a) == (2 if nm == "map" else 3):
+            clo = strip_deep(a[-1])
+            dflt = const_eval(a[1]) if nm == "map_or" else 0
+            if clo[0] == "fnref" and dflt is not None and 0 <= dflt <= 16 and \
+                    re.search(r"(^|::)(len|count_ones|leading_zeros|trailing_zeros)$", clo[1]) and re.match(r"^(core|std|alloc|bytes)::", clo[1]):
+                acc[0] += 1                                # `.map(<[u8]>::len)`
+                acc[1] += dflt
+                return True
+            if clo[0] != "closure" or dflt is None or not (0 <= dflt <= 16) or _LEN_FACTS[0] is None:
+                return False
+            cb = _LEN_FACTS[0].body(clo[1])
+            if cb is None or cb.arg_count != 2:
+                return False
+            pname = cb.local_name(2)
+            vals = [strip_deep(x) for _, _, x in success_values(cb)]
+            if not vals:
+                return False
+            inner = [0, 0]
+            arg_is_len = len_leaves(a[0], inner)           # the mapped value is itself a length / index …
+            best = [0, 0]
+            for v in vals:
+                sub = [0, 0]
+
+                def leaf(x):
+                    x = peel(x)
+                    if x[0] == "param" and x[1] == pname:
+                        if not arg_is_len:
+                            return False
+                        sub[0] += inner[0]; sub[1] += inner[1]
+                        return True
+                    if x[0] == "len" or (x[0] == "call" and (x[3] or {}).get("name") in LEN_NAMES
+                                         and (x[3] or {}).get("krate") in ("core", "std", "alloc", "bytes")):
+                        sub[0] += 1                        # … or the closure takes the length of what it is given
+                        return True
+                    if x[0] == "const" and isinstance(x[1], int) and 0 <= x[1] <= 16:
+                        sub[1] += x[1]
+                        return True
+                    if x[0] == "field" and x[2] in ("0", 0) and x[1][0] == "bin" and x[1][1] == "AddWithOverflow":
+                        return leaf(x[1][2]) and leaf(x[1][3])
+                    if x[0] == "bin" and x[1] == "Add":
+                        return leaf(x[2]) and leaf(x[3])
+                    return False
+                if not leaf(v):
+                    return False
+                best = [max(best[0], sub[0]), max(best[1], sub[1])]
+            acc[0] += best[0]
+            acc[1] += max(best[1], dflt)
+            return True
     if k == "cast":
         inner = peel(t[1])
         # `cond as usize` is 0 or 1
@@ -1237,7 +1304,7 @@ def rule_vec_writer(f, site):
 
 RULES = [("P0-const", lambda f, s, env: rule_const(s)),
          ("P0-arg", lambda f, s, env: rule_arg_const(s)),
-         ("P0-len", lambda f, s, env: rule_len_arith(s)),
+         ("P0-len", lambda f, s, env: (_LEN_FACTS.__setitem__(0, f), rule_len_arith(s))[1]),
          ("P0-layout", lambda f, s, env: rule_layout(f, s)),
          ("P0-split", lambda f, s, env: rule_find_split(f, s)),
          ("P0-prefix", lambda f, s, env: rule_prefix_index(f, s)),
